@@ -19,6 +19,12 @@ The two defects this repairs are kept as counterexample theorems about the model
 behaviour: `stale_store_counterexample` (contents saved while recording, used after a re-evaluation)
 and `no_reapply_counterexample` (buffers left rolled back after a sweep).
 
+* graphs with **constant work arrays** updated in place (no recorded node re-creates their storage): the repaired
+  `CGraph.pushforward` undoes the previous evaluation's writes first; `workarray_history_independent`: after any history the
+  evaluation is the one from the recorded heap (writes with arbitrary update functions, so accumulation is covered);
+  `workarray_counterexample`: the old behaviour on `acc += x`.  The executable instance `accHistory` is compared with the
+  implementation's sequence of values by the C06 run.
+
 That no pullback kernel writes into a forward value (e.g. the old `_pb_tansec`) is checked on the
 implementation by node-value snapshots around `cg.pullback` in the C06 run (partial: no theorem).
 -/
@@ -48,5 +54,27 @@ theorem no_reapply_counterexample :
         (wfwd [(0, 1)] (fun i => if i = 0 then 1 else 2)) 0
       ≠ wfwd [(0, 1)] (fun i => if i = 0 then 1 else 2 : Heap Nat) 0 := by
   decide
+
+/-! ### graphs with constant work arrays (`acc = Function(UTPM(zeros)); acc += x; …`) -/
+
+/-- the repaired `CGraph.pushforward` (undo the previous evaluation's writes into constant work arrays, set the inputs,
+run the writes — any update function per write, e.g. accumulation): after **any history** of evaluations the evaluation
+at `ins` is the evaluation from the recorded heap, whatever was evaluated before -/
+theorem workarray_history_independent (ws : List (GWrite V)) (h0 : Heap V) (first : List (Nat × V))
+    (hist : List (List (Nat × V))) (ins : List (Nat × V))
+    (hc : ∀ a b, a ∈ (first :: hist) ++ [ins] → b ∈ (first :: hist) ++ [ins] → InputsCover a b) :
+    evalUndo ws (hist.foldl (evalUndo ws) (evalState ws h0 first)) ins = evalState ws h0 ins :=
+  evalUndo_history ws h0 first hist ins hc
+
+/-- non-vacuity of the hypothesis: two evaluations that set the same input cell cover each other -/
+example : InputsCover [(1, (5 : Nat))] [(1, 7)] := by
+  intro h; funext i; simp only [setIn, List.foldl_cons, List.foldl_nil, upd]; split <;> rfl
+
+/-- the old behaviour on `acc += x` (cells: 0 = acc, 1 = x; recorded with x = 1 from acc = 0): the second evaluation at the
+same input returns 3 instead of 1; with the undo both return 1 -/
+theorem workarray_counterexample :
+    accHistory false [(0, 1)] [0, 0] [(1, 1)] [[(1, 1)], [(1, 1)]] 0 = [2, 3] ∧
+    accHistory true [(0, 1)] [0, 0] [(1, 1)] [[(1, 1)], [(1, 1)]] 0 = [1, 1] := by
+  decide +kernel
 
 end AV.C06
